@@ -21,6 +21,10 @@ pub struct SQ {
     /// order the events by the payload time field `at` (USING TIME at) instead of the core timestamp
     #[serde(default)]
     pub using_at: bool,
+    /// how the conditions are spelled: 0 = equalities joined by AND; 1 = each as NOT <field> = "<the other value>";
+    /// 2 = each as (<field> = "<value>" OR <field> = "<a value that never occurs>"). Same meaning in all three.
+    #[serde(default)]
+    pub form: u8,
 }
 
 #[derive(Clone, Debug, Serialize, Deserialize)]
@@ -47,11 +51,16 @@ impl SQ {
             s.push_str(" USING TIME at");
         }
         let mut conds = vec![];
+        let spell = |field: &str, v: &str, other: &str| match self.form {
+            1 => format!("NOT {} = \"{}\"", field, other),
+            2 => format!("({} = \"{}\" OR {} = \"zz\")", field, v, field),
+            _ => format!("{} = \"{}\"", field, v),
+        };
         if let Some(p) = &self.a_cond {
-            conds.push(format!("pv.p = \"{}\"", p));
+            conds.push(spell("pv.p", p, if p == "/a" { "/b" } else { "/a" }));
         }
         if let Some(st) = &self.b_cond {
-            conds.push(format!("oc.st = \"{}\"", st));
+            conds.push(spell("oc.st", st, if st == "done" { "bad" } else { "done" }));
         }
         if !conds.is_empty() {
             s.push_str(&format!(" WHERE {}", conds.join(" AND ")));
@@ -97,8 +106,9 @@ fn case_strategy(tier: Tier, ex: Excl) -> BoxedStrategy<Case> {
                 opt_w(if ex.conds { 0.0 } else { 0.5 }, prop::sample::select(vec!["done", "bad"])),
                 opt_w(if ex.limit { 0.0 } else { 0.3 }, 1u32..4),
                 prop::bool::weighted(0.3),
+                prop_oneof![2 => Just(0u8), 1 => Just(1u8), 1 => Just(2u8)],
             )
-                .prop_map(move |(preceded, a, b, limit, using_at)| SQ { preceded, a_cond: a.map(|s| s.to_string()), b_cond: b.map(|s| s.to_string()), limit, using_at });
+                .prop_map(move |(preceded, a, b, limit, using_at, form)| SQ { preceded, a_cond: a.map(|s| s.to_string()), b_cond: b.map(|s| s.to_string()), limit, using_at, form });
             (Just(cfg), Just(n_ctx), ops, tail, prop::collection::vec(q, 4..=tier.pick(10, 16)))
         })
         .prop_map(|(cfg, n_ctx, ops, tail, queries)| Case { cfg, n_ctx, ops, tail, queries })
